@@ -13,7 +13,7 @@ import operator
 
 from . import extsig
 from .model import AnalysisError, FuncInfo, ClassInfo, _local_names
-from .terms import (T, const, cval, is_const, NONE, TRUE, FALSE, sym, ext,
+from .terms import (T, const, cval, is_const, NONE, TRUE, FALSE, sym, ext, strip_negation,
                     unknown, ite, tup, lst, UNBOUND, walk, show)
 
 _BUILTIN_NAMES = set(dir(_builtins))
@@ -1227,6 +1227,10 @@ class Evaluator:
       return T('rec', rec.args[0], tuple((k, fields[k]) for k in order))
     if op == 'ext':
       args, kwargs = extsig.canonical(f.args[0], args, kwargs)
+      if f.args[0] in ('jax.numpy.where', 'jax.lax.select', 'numpy.where') and len(args) == 3 and not kwargs:
+        c2, flipped = strip_negation(args[0])       # canonical polarity of array selects
+        if flipped:
+          args = [c2, args[2], args[1]]
       r = self.call_ext(f.args[0], args, kwargs, n, scope)
       if r is not None:
         return r
@@ -1604,7 +1608,11 @@ class Evaluator:
       self.path.append(T('condarm', a[0], False))
       tb = self.call(a[2], ops, {}, n, scope)
       self.path.pop()
-      r_ = T('cond', a[0], ta, tb, loc=self._loc(n) if n is not None else None)
+      c2, flipped = strip_negation(a[0])
+      if flipped:
+        r_ = T('cond', c2, tb, ta, loc=self._loc(n) if n is not None else None)
+      else:
+        r_ = T('cond', a[0], ta, tb, loc=self._loc(n) if n is not None else None)
       self.cond_log.append((r_, self.cur_fq(), n))
       return r_
     if dotted in ('jax.lax.while_loop',) and len(a) == 3:
